@@ -150,6 +150,9 @@ pub fn opts_for(prop: &str) -> GenOpts {
             o.partial_pct = 45;
             o.max_ops = 6;
             o.min_threads = 1;
+            // "take the rest" pulls: chunk sizes at the edge of usize on known-size kinds; the
+            // cursor must stay at the end afterwards (seeded change C04-r5)
+            o.huge_pct = 6;
         }
         "C05" => {
             o.nonfused_pct = 40;
